@@ -24,6 +24,7 @@
  *   solve                            prints "solve rc=.. errno=.. cb=.. cat=.. pvalues=..."
  *   getparam <name>                  prints "param <name> <re im> ..." at every calibration frequency
  *   apply <mr> <mc> <cells>          prints "apply rc=.. errno=.. cb=.." and "S <findex> <re im ...>"
+ *   wbguard                          (white-box build only) see wb_guard below
  *   end                              frees everything, prints "end <id>"
  * Names match, open, short, zero, one are predefined.
  */
@@ -116,6 +117,7 @@ static int wb_dump;		/* dump coefficient matrices handed to the solvers */
 double *wb_calc_weights(vnacal_new_solve_state_t *vnssp);
 int wb_qr(complex double *a, complex double *q, complex double *r, int m, int n);
 int wb_qrsolve(complex double *x, complex double *a, complex double *b, int m, int n, int o);
+int wb_qrsolve_trl(complex double *x, complex double *a, complex double *b, int m, int n, int o);
 double complex wb_mldivide(complex double *x, complex double *a, const double complex *b,
 	int m, int n);
 int wb_printf(const char *fmt, ...);
@@ -179,6 +181,18 @@ int wb_qrsolve(complex double *x, complex double *a, complex double *b, int m, i
     return _vnacommon_qrsolve(x, a, b, m, n, o);
 }
 
+/* the solver call of _vnacal_new_solve_trl (harness/selfcal_wb_trl.c): its own tag, so that the
+   solver path remains observable */
+int wb_qrsolve_trl(complex double *x, complex double *a, complex double *b, int m, int n, int o)
+{
+    printf("wb trlsolve %d %d\n", m, n);
+    if (wb_dump) {
+	wb_matrix("A", a, m, n);
+	wb_matrix("b", b, m, o);
+    }
+    return _vnacommon_qrsolve(x, a, b, m, n, o);
+}
+
 double complex wb_mldivide(complex double *x, complex double *a, const double complex *b,
 	int m, int n)
 {
@@ -195,6 +209,134 @@ double wb_exp(double x)
 {
     printf("wb exp %.17g\n", x);
     return exp(x);
+}
+
+/* wrappers around the static save_v_matrices / restore_v_matrices (harness/selfcal_wb_auto.c) */
+void wb_save_v(const vnacal_new_solve_state_t *vnssp, double complex *buf);
+void wb_restore_v(vnacal_new_solve_state_t *vnssp, const double complex *buf);
+
+/*
+ * wb_guard: "wbguard" command.  Builds the solve state of the current vnacal_new_t exactly as
+ * vnacal_new_solve does (_vnacal_new_solve_init, _vnacal_new_solve_start_frequency(0)), fills
+ * the value matrices with integer markers, and runs the UNMODIFIED
+ *   _vnacal_new_solve_update_s_matrices, save_v_matrices, restore_v_matrices
+ * on it, printing the pointer shapes before and the values after, for comparison with
+ * coq/SelfCal/GuardModel.v.  The buffer handed to save_v_matrices has exactly the size the
+ * caller in solve_auto allocates (the sanitizer sees any overrun).
+ */
+static void wb_guard(vnacal_new_t *vnp)
+{
+    vnacal_new_solve_state_t vnss;
+    const vnacal_layout_t *vlp = &vnp->vn_layout;
+    const int s_rows = VL_S_ROWS(vlp), s_columns = VL_S_COLUMNS(vlp);
+    const int v_cells = VL_V_ROWS(vlp) * VL_V_COLUMNS(vlp);
+    const int nstd = vnp->vn_measurement_count;
+    const int systems = vnp->vn_systems;
+    int marker;
+
+    if (_vnacal_new_solve_init(&vnss, vnp) == -1) {
+	printf("wb guard initfailed\n");
+	return;
+    }
+    _vnacal_new_solve_start_frequency(&vnss, 0);
+
+    /* ---- update_s_matrices ---- */
+    printf("wb sdim %d %d %d %d %d\n", s_rows, s_columns, nstd, vnp->vn_unknown_parameters,
+	    vnp->vn_frequencies);
+    for (int u = 0; u < vnp->vn_unknown_parameters; ++u)
+	for (int f = 0; f < vnp->vn_frequencies; ++f)
+	    vnss.vnss_p_vector[u][f] = 1000.0 * (u + 1) + f;
+    marker = 1;
+    for (vnacal_new_measurement_t *vnmp = vnp->vn_measurement_list; vnmp != NULL;
+	    vnmp = vnmp->vnm_next) {
+	vnacal_new_msv_matrices_t *vnmmp = &vnss.vnss_msv_matrices[vnmp->vnm_index];
+
+	printf("wb scells %d", vnmp->vnm_index);
+	for (int c = 0; c < s_rows * s_columns; ++c) {
+	    vnacal_new_parameter_t *p = vnmp->vnm_s_matrix[c];
+
+	    if (p == NULL)
+		printf(" N");
+	    else if (p->vnpr_unknown)
+		printf(" U%d", p->vnpr_unknown_index);
+	    else
+		printf(" K");
+	    vnmmp->vnmm_s_matrix[c] = (double)marker++;
+	}
+	printf("\nwb sbefore %d", vnmp->vnm_index);
+	for (int c = 0; c < s_rows * s_columns; ++c)
+	    printf(" %.0f", creal(vnmmp->vnmm_s_matrix[c]));
+	printf("\n");
+    }
+    _vnacal_new_solve_update_s_matrices(&vnss);
+    for (int i = 0; i < nstd; ++i) {
+	printf("wb safter %d", i);
+	for (int c = 0; c < s_rows * s_columns; ++c)
+	    printf(" %.0f", creal(vnss.vnss_msv_matrices[i].vnmm_s_matrix[c]));
+	printf("\n");
+    }
+
+    /* ---- V matrices ---- */
+    printf("wb vdim %d %d %d %d %d", systems, v_cells, nstd, vlp->vl_t_terms - 1,
+	    vnp->vn_m_error_vector != NULL ? 1 : 0);
+    for (int s = 0; s < systems; ++s)
+	printf(" %d", vnp->vn_system_vector[s].vns_equation_count);
+    printf("\n");
+    marker = 1;
+    for (int i = 0; i < nstd; ++i) {
+	double complex **v = vnss.vnss_msv_matrices[i].vnsm_v_matrices;
+
+	printf("wb vshape %d", i);
+	if (v == NULL) {
+	    printf(" -");
+	} else {
+	    for (int s = 0; s < systems; ++s) {
+		printf(" %s", v[s] != NULL ? "P" : "N");
+		if (v[s] != NULL)
+		    for (int c = 0; c < v_cells; ++c)
+			v[s][c] = (double)marker++;
+	    }
+	}
+	printf("\n");
+    }
+    {
+	size_t n = (size_t)nstd * systems * v_cells;
+	double complex *buf = malloc((n ? n : 1) * sizeof(double complex));
+
+	for (size_t k = 0; k < n; ++k)
+	    buf[k] = 7777.0;
+	wb_save_v(&vnss, buf);
+	printf("wb vbuf");
+	for (size_t k = 0; k < n; ++k)
+	    printf(" %.0f", creal(buf[k]));
+	printf("\n");
+	/* what _vnacal_new_solve_update_all_v_matrices would do: overwrite every existing matrix */
+	for (int i = 0; i < nstd; ++i) {
+	    double complex **v = vnss.vnss_msv_matrices[i].vnsm_v_matrices;
+
+	    if (v != NULL)
+		for (int s = 0; s < systems; ++s)
+		    if (v[s] != NULL)
+			for (int c = 0; c < v_cells; ++c)
+			    v[s][c] = 9000.0 + c;
+	}
+	wb_restore_v(&vnss, buf);
+	for (int i = 0; i < nstd; ++i) {
+	    double complex **v = vnss.vnss_msv_matrices[i].vnsm_v_matrices;
+
+	    if (v != NULL)
+		for (int s = 0; s < systems; ++s)
+		    if (v[s] != NULL) {
+			printf("wb vafter %d %d", i, s);
+			for (int c = 0; c < v_cells; ++c)
+			    printf(" %.0f", creal(v[s][c]));
+			printf("\n");
+		    }
+	}
+	free(buf);
+    }
+    _vnacal_new_solve_free(&vnss);
+    printf("wb guard done\n");
 }
 
 int wb_printf(const char *fmt, ...)
@@ -444,6 +586,8 @@ int main(int argc, char **argv)
 	    wb_mode = nexti();
 	    wb_trace = nexti();
 	    wb_dump = nexti();
+	} else if (strcmp(op, "wbguard") == 0) {
+	    wb_guard(vnp);
 #endif
 	} else if (strcmp(op, "ptol") == 0) {
 	    report("ptol", vnacal_new_set_p_tolerance(vnp, nextd()));
